@@ -147,6 +147,7 @@ def harnesses(tier):
     if tier == "quick":
         return [surgery_harness("dag4-one-op", 4, 1, ["bypass", "keep_only", "between"], "id", 2, False),
                 surgery_harness("dag3-two-ops", 3, 2, ["bypass", "keep_only", "between"], "id", 1, False),
+                surgery_harness("dag4-between-iterators", 4, 1, ["between"], "id", 2, True),
                 surgery_harness("dag4-queries-then-two-bypasses", 4, 2, ["bypass"], "id", 1, False, warm=True)]
     return [surgery_harness("dag5-bypass", 5, 1, ["bypass"], "two"),
             surgery_harness("dag5-keep-only-between", 5, 1, ["keep_only", "between"]),
